@@ -93,6 +93,9 @@ pub enum Op {
     HashSelf,
     Random(String),
     Wide(Vec<u8>),
+    /// x = z-coordinate of G1::new(1, x, 1) + G1::new(1, x, 1)  (= 2x: the doubling used inside point arithmetic,
+    /// reached through the public constructor with arbitrary coordinates and the coordinate accessor)
+    DoubleViaG1,
 }
 impl Op {
     pub fn label(&self) -> String {
@@ -113,6 +116,7 @@ impl Op {
             Op::HashSelf => "x=from_hash(to_slice(x))".into(),
             Op::Random(s) => format!("x=random:{}", s),
             Op::Wide(b) => format!("x=from_slice:{}", refmodel::hex(b)),
+            Op::DoubleViaG1 => "x=(G1::new(1,x,1)+same).z()".into(),
         }
     }
     pub fn parse(l: &str) -> Op {
@@ -128,6 +132,7 @@ impl Op {
             "x=from_str(decimal(x))" => Op::RtStr,
             "x=sqrt(x)" => Op::Sqrt,
             "x=from_hash(to_slice(x))" => Op::HashSelf,
+            "x=(G1::new(1,x,1)+same).z()" => Op::DoubleViaG1,
             _ => {
                 if let Some(c) = l.strip_prefix("x=const:") {
                     Op::Const(refmodel::nhex(c))
@@ -169,6 +174,9 @@ pub trait FpMachine: FpApi {
     fn sqrt_(&self) -> Option<Option<Self>> {
         None
     }
+    fn double_via_group(&self) -> Option<Self> {
+        None
+    }
 }
 impl FpMachine for Fr {
     fn set_bit_(&mut self, i: usize, v: bool) -> bool {
@@ -185,6 +193,10 @@ impl FpMachine for Fr {
 impl FpMachine for Fq {
     fn sqrt_(&self) -> Option<Option<Self>> {
         Some(self.sqrt())
+    }
+    fn double_via_group(&self) -> Option<Self> {
+        let p = sm9_core::G1::new(Fq::one(), *self, Fq::one());
+        Some((p + p).z())
     }
 }
 
@@ -331,6 +343,10 @@ fn step_fp<F: FpMachine>(s: &St<F>, op: &Op) -> Option<Result<St<F>, Bad>> {
                 // the mapping stream -> value is not part of the property: the model adopts the value
                 t.mx = from_be(&t.x.bytes()) % p;
             }
+            Op::DoubleViaG1 => {
+                t.x = lib("G1 doubling", || s.x.double_via_group())?.expect("only in the Fq machine");
+                t.mx = addm(&s.mx, &s.mx, p);
+            }
             Op::Wide(b) => {
                 match lib("from_slice", || F::from_slice_(b))? {
                     Some(g) => t.x = g,
@@ -350,6 +366,8 @@ fn menu_fp<F: FpMachine>(tier: Tier, seed: u64, bits: &[usize], full: bool) -> V
     let mut ops = vec![Op::Add, Op::Sub, Op::Mul, Op::Neg, Op::Inv, Op::Pow, Op::Swap, Op::RtBytes];
     let mut consts = vec![n(0), n(1), n(2), p - n(1), (p - n(1)) / n(2), ri.clone(), negm(&ri, p)];
     consts.push(generic(p, seed, 0xc07, 1).pop().unwrap());
+    consts.push(mulm(&((p - n(1)) / n(2)), &ri, p)); // stored (p-1)/2
+    consts.push(mulm(&((p + n(1)) / n(2)), &ri, p)); // stored (p+1)/2
     if full {
         // values whose stored limbs / canonical value have bit 254 or 255 set in interesting ways
         consts.push(two(255) % p);
@@ -367,6 +385,7 @@ fn menu_fp<F: FpMachine>(tier: Tier, seed: u64, bits: &[usize], full: bool) -> V
     }
     if F::NAME == "Fq" {
         ops.push(Op::Sqrt);
+        ops.push(Op::DoubleViaG1);
     }
     if F::NAME == "Fr" {
         for i in bits {
@@ -424,6 +443,8 @@ pub enum Op2 {
     Sqrt,
     NewRealXImagY,
     NewImagXRealX,
+    /// x = z-coordinate of G2::new(1, x, 1) + same (= 2x through the doubling inside point arithmetic)
+    DoubleViaG2,
 }
 impl Op2 {
     pub fn label(&self) -> String {
@@ -438,6 +459,7 @@ impl Op2 {
             Op2::Sqrt => "x=sqrt(x)".into(),
             Op2::NewRealXImagY => "x=new(real(x),imaginary(y))".into(),
             Op2::NewImagXRealX => "x=new(imaginary(x),real(x))".into(),
+            Op2::DoubleViaG2 => "x=(G2::new(1,x,1)+same).z()".into(),
         }
     }
     pub fn parse(l: &str) -> Op2 {
@@ -451,6 +473,7 @@ impl Op2 {
             "x=sqrt(x)" => Op2::Sqrt,
             "x=new(real(x),imaginary(y))" => Op2::NewRealXImagY,
             "x=new(imaginary(x),real(x))" => Op2::NewImagXRealX,
+            "x=(G2::new(1,x,1)+same).z()" => Op2::DoubleViaG2,
             _ => {
                 let c = l.strip_prefix("x=const:").unwrap_or_else(|| panic!("unknown op label {}", l));
                 let (a, b) = c.split_once(':').unwrap();
@@ -554,6 +577,13 @@ fn step2(s: &St2, op: &Op2) -> Option<Result<St2, Bad>> {
                 t.x = lib("new", || Fq2::new(s.x.imaginary(), s.x.real()))?;
                 t.mx = F2 { a: s.mx.b.clone(), b: s.mx.a.clone() };
             }
+            Op2::DoubleViaG2 => {
+                t.x = lib("G2 doubling", || {
+                    let p = sm9_core::G2::new(Fq2::one(), s.x, Fq2::one());
+                    (p + p).z()
+                })?;
+                t.mx = s.mx.add(&s.mx);
+            }
         }
         Ok(())
     })();
@@ -566,7 +596,8 @@ fn menu2(seed: u64) -> Vec<Op2> {
     let p = q();
     let ri = rinv(p);
     let g = generic(p, seed, 0xc072, 2);
-    let mut ops = vec![Op2::Add, Op2::Sub, Op2::Mul, Op2::Neg, Op2::Swap, Op2::RtBytes, Op2::Sqrt, Op2::NewRealXImagY, Op2::NewImagXRealX];
+    let mut ops = vec![Op2::Add, Op2::Sub, Op2::Mul, Op2::Neg, Op2::Swap, Op2::RtBytes, Op2::Sqrt, Op2::NewRealXImagY, Op2::NewImagXRealX, Op2::DoubleViaG2];
+    let half = mulm(&((p - n(1)) / n(2)), &ri, p); // stored (q-1)/2
     for (a, b) in [
         (n(0), n(0)),
         (n(1), n(0)),
@@ -575,6 +606,8 @@ fn menu2(seed: u64) -> Vec<Op2> {
         (negm(&ri, p), ri.clone()),
         ((p - n(1)) / n(2), n(2)),
         (g[0].clone(), g[1].clone()),
+        (half.clone(), n(1)),
+        (n(1), half.clone()),
     ] {
         ops.push(Op2::Const(F2 { a, b }));
     }
